@@ -33,6 +33,15 @@ mod c06 {
     include!(concat!(env!("XOOLIVE_RS1090_VERIF_DIR"), "/c06.rs"));
 }
 
+#[allow(dead_code)]
+mod app {
+    include!(concat!(env!("XOOLIVE_RS1090_VERIF_DIR"), "/app.rs"));
+}
+#[allow(dead_code)]
+mod c12 {
+    include!(concat!(env!("XOOLIVE_RS1090_VERIF_DIR"), "/c12.rs"));
+}
+
 fn dispatch<S: batch::Scenario>(sc: &S, cmd: &str, env: &batch::Env) -> i32 {
     match cmd {
         "check" => batch::run_check(sc, env).exit_code,
@@ -67,6 +76,7 @@ fn verif_entry() {
         "C06" => dispatch(&c06::C06, &cmd, &env),
         "C09" => dispatch(&c09::C09, &cmd, &env),
         "C10" => dispatch(&c10::C10, &cmd, &env),
+        "C12" => dispatch(&c12::C12, &cmd, &env),
         _ => {
             println!("HARNESS-ERROR: unknown property '{}'", prop);
             2
